@@ -415,6 +415,11 @@ impl<'a> Sim<'a> {
         f(self.world.borrow().hosts.get(&addr).expect("missing host"))
     }
 
+    #[cfg(feature = "verif-hooks")]
+    pub(crate) fn verif_with_world<R>(&self, f: impl FnOnce(&World) -> R) -> R {
+        f(&self.world.borrow())
+    }
+
     /// Step the simulation.
     ///
     /// Runs each host in the simulation a fixed duration configured by
